@@ -59,6 +59,7 @@ func NewTask(workflow *Workflow, process *Process, name string, cmdPat string, i
 			ips := []*FileIP{}
 			for ip := range inIPs[ptName].SubStream.Chan {
 				ips = append(ips, ip)
+				vhook("ct.sub", "proc", name, "port", ptName, "path", ip.Path())
 			}
 			t.subStreamIPs[ptName] = ips
 		}
@@ -77,6 +78,7 @@ func NewTask(workflow *Workflow, process *Process, name string, cmdPat string, i
 		t.OutIPs[oname] = oip
 	}
 	t.Command = t.formatCommand(cmdPat, portInfos, inIPs, t.subStreamIPs, t.OutIPs, params, tags, prepend)
+	vhook("task.new", "proc", name, "task", vTask(t), "outs", vOuts(t), "cmd", t.Command, "tmp", t.TempDir())
 	return t
 }
 
@@ -251,6 +253,7 @@ func (t *Task) Tag(tagName string) string {
 // Execute executes the task (the shell command or go function in CustomExecute)
 func (t *Task) Execute() {
 	defer close(t.Done)
+	vhook("exec.begin", "task", vTask(t), "cores", t.cores)
 
 	// Do some sanity checks
 	if t.tempDirsExist() {
@@ -258,17 +261,21 @@ func (t *Task) Execute() {
 	}
 
 	if t.anyOutputsExist() {
+		vhook("exec.skip", "task", vTask(t))
 		t.Done <- 1
+		vhook("done.send.done", "task", vTask(t))
 		return
 	}
 
 	// Execute task
 	t.workflow.IncConcurrentTasks(t.cores) // Will block if max concurrent tasks is reached
+	vhook("exec.acquired", "task", vTask(t), "cores", t.cores)
 	err := t.createDirs()                  // Create output directories needed for any outputs
 	if err != nil {
 		t.Failf("Could not create directories: %v", err)
 	}
 	startTime := time.Now()
+	vhook("cmd.start", "task", vTask(t), "cores", t.cores)
 	if t.CustomExecute != nil {
 		outputsStr := ""
 		for oipName, oip := range t.OutIPs {
@@ -283,17 +290,24 @@ func (t *Task) Execute() {
 		t.Auditf("Finished: %s", t.Command)
 	}
 	finishTime := time.Now()
+	vhook("cmd.end", "task", vTask(t))
 	t.writeAuditLogs(startTime, finishTime)
+	vhook("audit.done", "task", vTask(t))
 
 	t.ensureAllOutputsExist()
+	vhook("exec.ensure", "task", vTask(t))
 	finErr := t.finalizePaths()
 	if finErr != nil {
 		t.Fail(finErr)
 	}
 
+	vhook("exec.fin", "task", vTask(t))
 	t.workflow.DecConcurrentTasks(t.cores)
+	vhook("exec.released", "task", vTask(t))
+	vhook("done.send.begin", "task", vTask(t))
 
 	t.Done <- 1
+	vhook("done.send.done", "task", vTask(t))
 }
 
 // ------------------------------------------------------------------------
@@ -431,10 +445,12 @@ func FinalizePaths(tempExecDir string, ips ...*FileIP) error {
 			tempPath := tempExecDir + "/" + oip.TempPath()
 			finPath := oip.Path()
 			Debug.Println("Moving OutIP path: ", tempPath, " -> ", finPath)
+			vhook("fin.rename.begin", "from", tempPath, "to", finPath)
 			renameErr := os.Rename(tempPath, finPath)
 			if renameErr != nil {
 				return errors.New(fmt.Sprintf("Could not rename out-IP file %s to %s: %s", tempPath, finPath, renameErr))
 			}
+			vhook("fin.rename.done", "from", tempPath, "to", finPath)
 		}
 	}
 	// For remaining paths in temporary execution dir, just move out of it
@@ -451,10 +467,12 @@ func FinalizePaths(tempExecDir string, ips ...*FileIP) error {
 				}
 			}
 			Debug.Println("Moving remaining file path: ", tempPath, " -> ", finPath)
+			vhook("fin.extra.begin", "from", tempPath, "to", finPath)
 			renameErr := os.Rename(tempPath, finPath)
 			if renameErr != nil {
 				return errors.New(fmt.Sprintf("Could not rename remaining file %s to %s: %s", tempPath, finPath, renameErr))
 			}
+			vhook("fin.extra.done", "from", tempPath, "to", finPath)
 		}
 		return err
 	})
@@ -463,10 +481,12 @@ func FinalizePaths(tempExecDir string, ips ...*FileIP) error {
 	}
 	// Remove temporary execution dir (but not for absolute paths, or current dir)
 	if tempExecDir != "" && tempExecDir != "." && tempExecDir[0] != '/' {
+		vhook("fin.rmtmp.begin", "dir", tempExecDir)
 		remErr := os.RemoveAll(tempExecDir)
 		if remErr != nil {
 			return errors.New(fmt.Sprintf("Could not remove temp dir: %s: %s", tempExecDir, remErr))
 		}
+		vhook("fin.rmtmp.done", "dir", tempExecDir)
 	}
 	return nil
 }
